@@ -32,6 +32,10 @@
 //    callback, mpt_getchar_stdio (memory stream / tmpfile), mpt_getchar_file (pipe / memfd / descriptor of a temporary file) and, with
 //    its name flags, mpt::config_parser. O: same return code and element sequence (C++: same verdict and tree) from every source;
 //    on success nothing of the input is left unread.
+//
+// Allocation-failure injection (first case byte 0x88..0x8f): mpt_parse_node / mpt_node_parse / mpt_parse_config with an mpt_node_append handler /
+//    config_parser::read on a generated text (names padded to 20-23, 84-87, 100-128, 212-255 bytes now and then), once on a twin target counting the
+//    library's allocations, then with the k-th allocation failing. O: complete success (tree of the twin) or an error with the target untouched; no leak.
 #include <dirent.h>
 #include <fcntl.h>
 #include <sys/mman.h>
@@ -1160,6 +1164,179 @@ static void run_cxx(Ctx &c) {
   if (fresh_ok >= 2 || failed_on_populated) c.nontrivial();
 }
 
+// ---- allocation-failure injection: the k-th allocation the library makes during a parse fails
+//
+// The same parse runs first on a twin target without injection (counting the library's allocation calls n), then on the target
+// under test with the k-th call (k drawn in 1..n) returning NULL once. C08: the parse succeeds completely (same tree as the twin)
+// or reports an error and leaves the target exactly as it was; nothing leaks; no invalid access; it terminates.
+static std::string limits_from(Flags fl) {
+  std::string s;
+  static const struct { int bit; char ch; } map[] = {{NumStart, 'f'}, {NumCont, 'c'}, {Special, 's'}, {Space, 'w'}, {Empty, 'e'}, {Binary, 'b'}};
+  for (auto &m : map) { if (fl.sect & m.bit) s += (char)(m.ch - 0x20); if (fl.opt & m.bit) s += m.ch; }
+  return s;
+}
+static void pad_names(Ctx &c, std::vector<Node> &t, const std::vector<uint8_t> &pb, size_t &i) {
+  // name lengths around the sizes at which a node or an identifier needs storage of its own
+  static const size_t want[] = {20, 21, 22, 23, 84, 85, 86, 87, 100, 127, 128, 212, 230, 254, 255, 12};
+  for (auto &n : t) {
+    if (i < pb.size() && (pb[i] & 3) == 3 && !n.name.empty()) {
+      size_t len = want[(pb[i] >> 2) & 15];
+      while (n.name.size() < len) n.name += "abcdefghijklmnopqrstuvwxyz"[n.name.size() % 26];
+    }
+    ++i;
+    pad_names(c, n.kids, pb, i);
+  }
+}
+static void run_inject(Ctx &c) {
+  static const int fam[] = {'*', 'x', ' ', '_'};
+  static const char *opname[] = {"mpt_parse_node", "mpt_node_parse", "mpt_parse_config+mpt_node_append", "config_parser::read"};
+  size_t op = c.weighted({4, 2, 3, 2});
+  size_t fsel = c.weighted({3, 1, 3});
+  Fmt f;
+  if (fsel == 0) { f.null_text = true; decode(f); }
+  else if (fsel == 1) { f.text = "{*} =;#! '\""; decode(f); }
+  else f = draw_fmt(c, fam[c.weighted({6, 2, 2, 1})]);
+  Flags fl = draw_flags(c);
+  fl.sect &= 0x3f;
+  fl.opt &= 0x3f;
+  if (op == 3) { fl.sect = NumCont | Space | Special; fl.opt = NumCont; }  // fixed by the class
+  bool populated = (op == 0 || op == 1 || op == 3) && c.chance(110);
+  std::vector<uint8_t> deco = deco_bytes(c), mut, pb = c.bytes(c.range(0, 12));
+  if (c.chance(70)) mut = c.bytes(c.range(1, 6));
+  unsigned kdraw = c.u16();
+  std::string limits = limits_from(fl);
+  char lab[64];
+  snprintf(lab, sizeof lab, "inject:%s", opname[op]);
+  c.label(lab);
+  c.logf("entry: allocation-failure injection into %s, %s target", opname[op], populated ? "populated" : "empty");
+  c.logf("%s", show(f).c_str());
+  c.logf("%s (limits \"%s\")", show(fl).c_str(), limits.c_str());
+
+  GenLimits lim;
+  lim.max_nodes = 12;
+  lim.huge_values = false;
+  lim.max_value = 300;
+  TreeGen g(c, f, fl, lim);
+  std::vector<Node> t = g.tree();
+  size_t pi = 0;
+  pad_names(c, t, pb, pi);
+  make_expressible(t, f);
+  Ctx dc(deco.data(), deco.size(), false);
+  Printer pr(dc, f, !deco.empty());
+  std::string doc = pr.render(t);
+  Ctx mc(mut.data(), mut.size(), false);
+  size_t nm = mut.empty() ? 0 : 1 + mc.weighted({5, 3, 1});
+  for (size_t k = 0; k < nm; k++) mutate(c, mc, doc, f, false);
+  c.logf("text (%zu bytes): %s", doc.size(), brief(doc, 1200).c_str());
+  std::vector<Node> old;
+  if (populated) {
+    Flags any;
+    TreeGen g2(c, f, any, lim);
+    g2.sect_pool = g.sect_pool;
+    g2.opt_pool = g.opt_pool;
+    old = g2.tree();
+    c.logf("target children before the parse:");
+    log_tree(c, old);
+  }
+
+  ExactStr fmt_c(f.text, f.null_text), lim_c(limits, false);
+  TmpFile file("a");
+  if (op == 3) { sweep_stale_files(); VP_CHECK(c, file.write(doc), "harness", "cannot write %s", file.name.c_str()); }
+
+  // one parse into 'target'; everything that is not part of the operation itself happens in 'prepare' (not under injection)
+  struct Run {
+    std::unique_ptr<Source> src;
+    std::unique_ptr<TextFile> tf;
+    std::unique_ptr<mpt::config_parser> cxx;
+    CObj<parser_context> pc;
+  };
+  auto prepare = [&](Run &r) {
+    if (op == 0 || op == 2) {
+      r.src.reset(new Source(doc));
+      r.src->bind(r.pc);
+      r.pc->name.sect = fl.sect;
+      r.pc->name.opt = fl.opt;
+    } else if (op == 1) {
+      r.tf.reset(new TextFile(doc, true));
+    } else {
+      r.cxx.reset(new mpt::config_parser);
+      if (fsel) r.cxx->set_format(fmt_c.p);
+      r.cxx->open(file.name.c_str());
+    }
+  };
+  auto parse = [&](Run &r, node *target) -> int {
+    if (op == 0) return mpt_parse_node(target, r.pc, fmt_c.p);
+    if (op == 1) return mpt_node_parse(target, r.tf->f, fmt_c.p, lim_c.p, 0);
+    if (op == 3) return r.cxx->read(*target, 0);
+    // mpt_parse_config with a handler that stores through mpt_node_append, the way mpt_parse_node and parser::read do
+    CObj<parser_format> pf;
+    input_parser_t fn = mpt_parse_next_fcn(mpt_parse_format(pf, fmt_c.p));
+    CObj<node> conf;
+    node *curr = conf.get();
+    struct H {
+      static int save(void *ctx, const path *p, const value *v, int last, int cur) {
+        node **pos = (node **)ctx, *next = mpt_node_append(*pos, p, v, last, cur);
+        if (!next) return -4;
+        *pos = next;
+        return 0;
+      }
+    };
+    r.pc->prev = (uint8_t)parser_context::Section;
+    int rc = mpt_parse_config(fn, pf.get(), r.pc, H::save, &curr);
+    if (rc < 0) { mpt_node_clear(conf); return rc; }
+    target->children = conf->children;
+    for (node *n = target->children; n; n = n->next) n->parent = target;
+    return rc;
+  };
+
+  // twin: same start, no injection, counts the allocations
+  Root twin, target;
+  VP_CHECK(c, build(twin.get(), old) && build(target.get(), old), "harness", "could not build the target trees");
+  Snapshot before, after, twin_after;
+  before.take(target.get());
+  int r_twin;
+  long n;
+  {
+    Run r;
+    prepare(r);
+    alloc_fail_after(0);
+    r_twin = parse(r, twin.get());
+    n = alloc_calls();
+  }
+  twin_after.take(twin.get());
+  c.logf("without injection: %d, %ld library allocations, %zu nodes in the target afterwards", r_twin, n, twin_after.addr.size());
+  if (n <= 0) { c.label("inject:no-allocation-in-the-parse"); return; }
+  long k = 1 + (long)(kdraw % (unsigned long)n);
+  int r;
+  long hit;
+  {
+    Run rr;
+    prepare(rr);
+    long f0 = alloc_failures();
+    alloc_fail_after(k);
+    r = parse(rr, target.get());
+    alloc_fail_after(0);
+    hit = alloc_failures() - f0;
+  }
+  after.take(target.get());
+  c.logf("allocation %ld of %ld fails: %s = %d%s", k, n, opname[op], r, hit ? "" : "   (the failing allocation was not reached)");
+  if (hit) c.label("inject:allocation-failed");
+  std::string w = walk(target.get());
+  if (r < 0) {
+    std::string d = diff(before.tree, after.tree);
+    VP_CHECK(c, d.empty() && before.addr == after.addr, "inject-failed-parse-changed-tree", "allocation %ld of %ld failed, %s = %d, but the target differs from before: %s", k, n, opname[op], r, d.empty() ? "other nodes" : d.c_str());
+    VP_CHECK(c, w.empty(), "inject-failed-parse-changed-tree", "allocation %ld of %ld failed, %s = %d, target no longer sound: %s", k, n, opname[op], r, w.c_str());
+    c.label("inject:error-reported");
+  } else {
+    VP_CHECK(c, r_twin >= 0, "inject-verdict", "%s = %d with allocation %ld of %ld failing, %d without injection", opname[op], r, k, n, r_twin);
+    std::string d = diff(twin_after.tree, after.tree);
+    VP_CHECK(c, d.empty(), "inject-incomplete-success", "allocation %ld of %ld failed, %s = %d (success), but the tree differs from the parse without injection: %s", k, n, opname[op], r, d.c_str());
+    VP_CHECK(c, w.empty(), "tree-links", "allocation %ld of %ld failed, %s = %d, resulting tree: %s", k, n, opname[op], r, w.c_str());
+    c.label(hit ? "inject:success-despite-failure" : "inject:success");
+  }
+  if (hit) c.nontrivial();
+}
+
 static void run(Ctx &c) {
   // ---- format and flags
   uint8_t sel = c.u8();
@@ -1167,6 +1344,7 @@ static void run(Ctx &c) {
   if (sel >= 0x40 && sel < 0x60) { run_format(c); return; }
   if (sel >= 0x20 && sel < 0x40) { run_node_parse(c); return; }
   if (sel >= 0x80 && sel < 0x88) { run_sources(c); return; }
+  if (sel >= 0x88 && sel < 0x90) { run_inject(c); return; }
   bool sane = !(sel >= 156);  // (was c.chance(100): same byte, same meaning)
   static const int fam[] = {'*', 'x', ' ', '_'};
   int family = fam[c.weighted({6, 2, 2, 1})];
@@ -1270,7 +1448,8 @@ static Target t = {
     "non-trivial: full description and >= 2 elements delivered. mpt_node_parse (1 case in 8): target with/without children x FILE (memory stream/tmpfile over generated, mutated or token-soup "
     "text, or NULL) x drawn format description x limits string (flag letters, refused characters, white space, empty, NULL), differential against mpt_parse_node; non-trivial: the target had "
     "children. Character sources (1 case in 32): one text with UTF-8 and stray high bytes through callback / mpt_getchar_stdio / mpt_getchar_file (pipe, memfd, tmpfile fd) / "
-    "mpt::config_parser, all must agree; non-trivial: high bytes present and >= 2 elements. Distinct by hash of the draw sequence.",
+    "mpt::config_parser, all must agree; non-trivial: high bytes present and >= 2 elements. Allocation-failure injection (1 case in 32): one of the four parse entry points on a "
+    "twin (counting n library allocations) and with allocation k of n failing; non-trivial: the failure was reached. Distinct by hash of the draw sequence.",
     run,
     {2500, 6000},
     false,
